@@ -133,7 +133,9 @@ def build(tier, seed):
     # VCs and height lemma are run here too (a change to the tree code that loses nodes breaks unification of every type table)
     import C08
     u8, o8, m8 = C08.build(tier, seed)
-    o8 = [o for o in o8 if o.kind != 'K5' and not getattr(o, 'stand_in', None)]
+    o8 = [o for o in o8 if o.kind != 'K5' and '.K2.descent.' not in o.id]
+    for o in o8:
+        o.stand_in = None      # no bounded stand-in here: a loop VC that no longer fits is left undecided in this check
     for o in o8:
         o.id = 'C01.tables.' + o.id.split('.', 1)[1]
     return [u] + u11 + uw + u8, obs + o11 + ow + o8, meta
